@@ -2,8 +2,8 @@
    arbitrary commutative *-ring R (so in particular for real and complex x, y), for every
    operator expression; D A = den ... noforce A is the denotation of coq/model/Linop.v. *)
 From Coq Require Import ZArith List Bool.
-From SV Require Import lib.Scalar lib.BigSum lib.Gather model.Rearrange model.Linop
-  proofs.LinopTheory proofs.LinopLeaves proofs.Rearrange proofs.LinopScale.
+From SV Require Import lib.Scalar lib.BigSum lib.NdArray lib.Gather model.Rearrange model.Linop
+  proofs.LinopTheory proofs.LinopLeaves proofs.Rearrange proofs.LinopScale proofs.LinopLeavesA.
 Import ListNotations.
 Local Open Scope Z_scope.
 
@@ -97,6 +97,52 @@ Example C01_fragment_example :
                   (op_lscale 7 (Compose [Flip [3; 2] None; Downsample [5; 4] [2; 2] [0; 0]])) in
   wf A = true /\ nodes_ok (fun L => proven_node L = true /\ wf L = true) A.
 Proof. vm_compute. repeat split; reflexivity. Qed.
+
+(* ---- more leaf classes, every valid parameter choice (proofs/LinopLeavesA.v) ---- *)
+Theorem C01_reshape_adjoint : forall (R : StarRing) arr scal orc o i,
+  wf (Reshape o i) = true -> prodZ o = prodZ i -> apair R arr scal orc (Reshape o i).
+Proof. exact apair_reshape. Qed.
+(* the full util.resize: unequal ranks, early return, default and explicit shifts *)
+Theorem C01_resize_operator_adjoint : forall (R : StarRing) arr scal orc o i isf osf,
+  wf (Resize o i isf osf) = true ->
+  shift_ok (Nat.max (length i) (length o)) isf -> shift_ok (Nat.max (length i) (length o)) osf ->
+  apair R arr scal orc (Resize o i isf osf).
+Proof. exact apair_resize. Qed.
+(* any shifts (negative, larger than the axis), negative and repeated axes, axes = None *)
+Theorem C01_circshift_adjoint : forall (R : StarRing) arr scal orc s sh ax,
+  wf (Circshift s sh ax) = true -> apair R arr scal orc (Circshift s sh ax).
+Proof. exact apair_circshift. Qed.
+(* basic indices: integers, slices with positive / negative steps and None bounds *)
+Theorem C01_slice_adjoint : forall (R : StarRing) arr scal orc i idx,
+  wf (Slice i idx) = true -> apair R arr scal orc (Slice i idx).
+Proof. exact apair_slice. Qed.
+Theorem C01_embed_adjoint : forall (R : StarRing) arr scal orc o idx,
+  wf (Embed o idx) = true -> apair R arr scal orc (Embed o idx).
+Proof. exact apair_embed. Qed.
+Theorem C01_sum_adjoint : forall (R : StarRing) arr scal orc i axes,
+  wf (Sum i axes) = true -> apair R arr scal orc (Sum i axes).
+Proof. exact apair_sum. Qed.
+Theorem C01_tile_adjoint : forall (R : StarRing) arr scal orc o axes,
+  wf (Tile o axes) = true -> apair R arr scal orc (Tile o axes).
+Proof. exact apair_tile. Qed.
+Theorem C01_transpose_reverse_adjoint : forall (R : StarRing) arr scal orc i,
+  wf (Transpose i None) = true -> apair R arr scal orc (Transpose i None).
+Proof. exact apair_transpose_none. Qed.
+(* raw axes incl. negative entries: the normalised axes must be a permutation (numpy raises otherwise) *)
+Theorem C01_transpose_axes_adjoint : forall (R : StarRing) arr scal orc i ax,
+  wf (Transpose i (Some ax)) = true -> is_perm (length i) (map (fun a => a mod lenZ i) ax) ->
+  apair R arr scal orc (Transpose i (Some ax)).
+Proof. exact apair_transpose_some. Qed.
+Print Assumptions C01_resize_operator_adjoint.
+Print Assumptions C01_circshift_adjoint.
+Print Assumptions C01_transpose_axes_adjoint.
+
+(* NO node hypothesis: every Conj / + / - / scaling / composition tree over Identity, Flip, Down/Upsample, scalar Multiply,
+   Reshape, Resize, Circshift, Slice, Embed, Sum, Tile, Transpose leaves *)
+Theorem C01_adjoint_unconditional_fragment_A : forall (R : StarRing) arr scal orc A,
+  wf A = true -> nodes_ok (fun L => proven_nodeA L = true /\ wf L = true) A -> apair R arr scal orc A.
+Proof. exact adj_correct_provenA. Qed.
+Print Assumptions C01_adjoint_unconditional_fragment_A.
 
 (* non-vacuity: a depth-3 tree mixing Resize / Flip / Downsample / Conj / + / composition is well-formed *)
 Example C01_example_tree_wf :
